@@ -576,5 +576,5 @@ func TestVerifC10(t *testing.T) {
 			return &explore.Violation{Key: o.fail.Key, What: o.fail.What, Human: append([]string{cfg.id()}, o.human...)}
 		},
 	}
-	explore.Main("C10", []explore.Part{part}, func(msg string) { t.Fatal(msg) })
+	explore.Main("C10", []explore.Part{part, c10OverlapPart(t)}, func(msg string) { t.Fatal(msg) })
 }
